@@ -623,6 +623,16 @@ def gen_items(seed, count, kinds, n_minutes=240):
             pol.update(base=100, tick=1.0, qtys=(1, 2), max_entry_rows=2, max_exit_rows=2, exits_in='on_open', allow_short=False,
                        p_edit=0.25, resize_always=True, p_edit_entry=0.0, p_liq=0.0, p_inplace=0.0, p_withdraw=0.0)
             it.update(spot=True, fee=[0, 1])
+        elif kind == 'allin':      # cross margin x10, the whole leveraged wallet in one position, wide stop: one loss exceeds the wallet
+            pol.update(base=100, tick=1.0, qtys=(80, 90), max_entry_rows=1, entry_offsets=(0,), max_exit_rows=1, exits_in='go',
+                       sl_dist=(18, 24), tp_dist=(50, 60), p_edit=0.0, p_liq=0.0, p_inplace=0.0, p_withdraw=0.0, p_edit_reduced=0.0,
+                       p_edit_increased=0.0, entry_every=rng.choice([3, 5]), long_phase=1, short_phase=2, p_signed=0.5)
+            it.update(lev=10, mode='cross', balance=1000, fee=rng.choice([[0, 1], [1, 1024]]), walk=dict(step=7, wick=5, room=80, flat_p=0.02))
+        elif kind == 'isoallin':   # isolated x20, all-in, fee > 0: the liquidation loss plus fees exceeds the wallet
+            pol.update(base=100, tick=1.0, qtys=(195, 197), max_entry_rows=1, entry_offsets=(0,), max_exit_rows=1, exits_in='on_open',
+                       sl_dist=(10, 12), tp_dist=(30, 40), p_edit=0.0, p_liq=0.0, p_inplace=0.0, p_withdraw=0.0, p_edit_reduced=0.0,
+                       p_edit_increased=0.0, entry_every=rng.choice([3, 5]), long_phase=1, short_phase=2)
+            it.update(lev=20, mode='isolated', pdiv=20, balance=1000, fee=[1, 1024], walk=dict(step=3, wick=2, room=80, flat_p=0.02))
         elif kind == 'iso':        # isolated margin, leverage 20: positions without a stop run into the liquidation order
             pol.update(base=100, tick=1.0, qtys=(1, 2), max_entry_rows=1, entry_offsets=(0, 0, -1, 1), max_exit_rows=2,
                        exits_in='on_open', sl_dist=(8, 12), tp_dist=(3, 9), p_edit=0.1, p_liq=0.0, p_edit_reduced=0.3, resize_always=False,
